@@ -8,6 +8,8 @@
 (*        at which it was printed) and every board sent, up to the end of  *)
 (*        iteration D.                                                     *)
 (* srun   the same search with the clock expiring at query k.              *)
+(* sallow the same search handed another allowance (virtual expiry far     *)
+(*        out): reported lines and boards prefix-related to the reference. *)
 (* stree  the full game tree of a scenario to depth D as the engine's own  *)
 (*        generator / evaluator see it, plus the reference run; the value  *)
 (*        of the search is re-derived with Search!Ref (the property's own  *)
@@ -196,6 +198,25 @@ RunFails(e) ==
   \cup InfoFails(f.legalTexts, e.infos)
 
 (***************************************************************************)
+(* sallow: the same search (same virtual expiry, far out) handed another   *)
+(* ALLOWANCE.  "Giving the search a larger allowance never changes the     *)
+(* sequence of improvements it reported under a smaller one - it only      *)
+(* extends it": the lines and boards of the two runs are prefix-related.   *)
+(* (Equality is not demanded: code that also reads the real clock may stop *)
+(* earlier under a small allowance.)                                       *)
+(***************************************************************************)
+PrefixRelated(s, t) == IsPrefix(s, t) \/ IsPrefix(t, s)
+AllowFails(e) ==
+  LET f == ctx IN
+  (IF e.panic THEN {<<"C07", "panic", D(<<f.cmd, "allowance", e.a>>)>>} ELSE {})
+  \cup (IF ~PrefixRelated(SeenSeq(e.infos), SeenSeq(e.ref_infos))
+        THEN {<<"C07", "allowance-changes-reported-improvements", D(<<f.cmd, "allowance", e.a>>)>>} ELSE {})
+  \cup (IF Len(e.infos) > 0 /\ Len(e.ref_infos) > 0 /\ ~PrefixRelated(SendSeq(e.sends), SendSeq(e.ref_sends))
+        THEN {<<"C07", "allowance-changes-boards-handed-over", D(<<f.cmd, "allowance", e.a>>)>>} ELSE {})
+  \cup (IF e.rep_after # f.rep0 THEN {<<"C07", "repetition-record-changed", D(<<f.cmd, "allowance", e.a>>)>>} ELSE {})
+  \cup InfoFails(f.legalTexts, e.infos)
+
+(***************************************************************************)
 (* stree: exactness of shallow search against the reference value.         *)
 (***************************************************************************)
 TreeOf(e) ==
@@ -278,11 +299,12 @@ CertFails(e) ==
 Fails(e) ==
   CASE e.ev = "sfull" -> (IF WellFormed(Decode(e.root)) THEN FullFails(e) ELSE {})
     [] e.ev = "srun" -> RunFails(e)
+    [] e.ev = "sallow" -> AllowFails(e)
     [] e.ev = "stree" -> TreeFails(e)
     [] e.ev = "mcert" -> CertFails(e)
     [] OTHER -> {<<"TOOL", "unknown-event", D(e.ev)>>}
 
-ZeroCnt == [sfull |-> 0, srun |-> 0, stree |-> 0, infos |-> 0, mates |-> 0, cut_before_first |-> 0, reached_last_iteration |-> 0,
+ZeroCnt == [sfull |-> 0, srun |-> 0, sallow |-> 0, stree |-> 0, infos |-> 0, mates |-> 0, cut_before_first |-> 0, reached_last_iteration |-> 0,
             mcert_proofs |-> 0, mcert_refutations |-> 0, mcert_none |-> 0, mcert_nodes |-> 0, mcert_beyond_3 |-> 0]
 Count(c, e) ==
   CASE e.ev = "sfull" -> [c EXCEPT !.sfull = @ + 1, !.infos = @ + Len(e.infos),
@@ -290,6 +312,7 @@ Count(c, e) ==
                                    !.mates = @ + Cardinality({j \in 1..Len(e.infos) : e.infos[j].ok /\ e.infos[j].kind = "mate"})]
     [] e.ev = "srun" -> [c EXCEPT !.srun = @ + 1, !.infos = @ + Len(e.infos),
                                   !.cut_before_first = @ + (IF Len(e.infos) = 0 THEN 1 ELSE 0)]
+    [] e.ev = "sallow" -> [c EXCEPT !.sallow = @ + 1, !.infos = @ + Len(e.infos)]
     [] e.ev = "stree" -> [c EXCEPT !.stree = @ + 1]
     [] e.ev = "mcert" -> [c EXCEPT !.mcert_proofs = @ + (IF e.cert = "proof" THEN 1 ELSE 0),
                                    !.mcert_refutations = @ + (IF e.cert = "refutation" THEN 1 ELSE 0),
